@@ -124,18 +124,30 @@ let run_case (c : ccase) : string =
     let ending = (match fst r with EndEOS -> "ret" | EndProtoErr -> "ret" | EndQuit -> "ret" | EndPanic -> "PANIC(model)" | EndFuel -> "FUEL") in
     Printf.sprintf "conn0=%s|%s;;final=0" ending (String.concat "~" (List.map ev_text (trace r)))
   end else begin
-    (* several connections: request-level interleaving *)
+    (* several connections: request-level interleaving.  Bytes are buffered per connection; at a wait point ('f')
+       every value that is certainly complete (parsing it is stable under extension of the stream) becomes a request;
+       what remains is parsed when the connection ends. *)
+    let bufs = Array.make c.conns [] in
+    let ended = Array.make c.conns false in
+    let x = n_of_int 88 in
+    let rec drain i acc =
+      (match parse (bufs.(i) @ [x]) with
+       | (PValue v, rest) when rest <> [] ->
+         bufs.(i) <- List.rev (List.tl (List.rev rest));
+         drain i (MReq (nat_of_int i, v) :: acc)
+       | _ -> List.rev acc) in
+    let rec finish i acc =
+      (match parse bufs.(i) with
+       | (PValue v, rest) -> bufs.(i) <- rest; finish i (MReq (nat_of_int i, v) :: acc)
+       | _ -> bufs.(i) <- []; List.rev (MEnd (nat_of_int i) :: acc)) in
     let ops = List.concat_map (fun (i, op) ->
+      if ended.(i) then [] else
       match op.[0] with
-      | 'f' ->
-        let bytes = bytes_of_hex (String.sub op 1 (String.length op - 1)) in
-        let rec vals s acc = (match parse s with
-          | (PValue v, rest) -> vals rest (MReq (nat_of_int i, v) :: acc)
-          | (PEOS, _) -> List.rev acc
-          | _ -> List.rev (MEnd (nat_of_int i) :: acc)) in
-        vals bytes []
-      | 'e' | 'r' | 'x' -> [MEnd (nat_of_int i)]
+      | 'f' -> bufs.(i) <- bufs.(i) @ bytes_of_hex (String.sub op 1 (String.length op - 1)); drain i []
+      | 'g' -> bufs.(i) <- bufs.(i) @ bytes_of_hex (String.sub op 1 (String.length op - 1)); []
+      | 'e' | 'r' | 'x' -> ended.(i) <- true; finish i []
       | _ -> []) c.steps in
+    let ops = ops @ List.concat (List.init c.conns (fun i -> if ended.(i) then [] else finish i [])) in
     let ops = ops @ List.init c.conns (fun i -> MEnd (nat_of_int i)) in
     let m = mrun handle regexp_src fw_text (msys_init ss () (nat_of_int c.conns)) ops in
     let parts = List.mapi (fun i mc ->
